@@ -15,9 +15,16 @@
 #include "src/secp256k1.c"
 #include "post.h"
 
-/* hash-side postcondition shared by the three units: the watched epoch-0 stream */
+/* hash-side postcondition shared by the three units: the watched epoch-0 stream.  X_, Y_ = affine coordinates of the point as integers:
+ * UNIT_TWEAK computes them with the declarative spec (value mod p); the two callers of ec_commit_tweak (UNIT_SECKEY, UNIT_POINT) re-use
+ * the real fe_normalize on a copy (its spec: C05.fe_normalize), which keeps their solver time low. */
+#ifdef UNIT_TWEAK
+#define COORDS(P) wide X_ = fmodp(&(P).x), Y_ = fmodp(&(P).y)
+#else
+#define COORDS(P) secp256k1_fe ex_ = (P).x, ey_ = (P).y; wide X_, Y_; secp256k1_fe_normalize(&ex_); secp256k1_fe_normalize(&ey_); X_ = fval(&ex_); Y_ = fval(&ey_)
+#endif
 #define HASH_POST(tag, P, hs0, hs7, hb0, data, dlen) do { \
-    wide X_ = fmodp(&(P).x), Y_ = fmodp(&(P).y); \
+    COORDS(P); \
     __CPROVER_assert(g_fin_n == 1 && g_w_fin, tag ": exactly one digest is taken"); \
     __CPROVER_assert(g_w_started && g_w_s0 == (hs0) && g_w_s7 == (hs7) && g_w_b0 == (hb0), tag ": the hash continues the caller's (tagged) hash object"); \
     __CPROVER_assert(g_w_end == (hb0) + 33 + (uint64_t)(dlen), tag ": hashed length is 33 + data_size beyond the caller's prefix"); \
@@ -87,9 +94,11 @@ void h_ec_commit(void) {
         if (d >= n) __CPROVER_assert(ret == 0 && g_ecmult_n == 0, "C15 ec_commit: tweak >= n => 0 before any curve work");
         else {
             __CPROVER_assert(g_ecmult_n == 1 && g_ecmult_has_na0 && g_ecmult_has_ng0 && sval(&g_ecmult_na0) == 1 && sval(&g_ecmult_ng0) == d, "C15 ec_commit: requests 1*P + be256(digest)*G");
-            __CPROVER_assert(fmodp(&g_ecmult_a0.x) == fmodp(&P0.x) && fmodp(&g_ecmult_a0.y) == fmodp(&P0.y) && !g_ecmult_a0.infinity && fval(&g_ecmult_a0.z) == 1, "C15 ec_commit: the point tweaked is the input point");
+            { secp256k1_fe nx = P0.x, ny = P0.y; secp256k1_fe_normalize(&nx); secp256k1_fe_normalize(&ny);   /* the code normalizes its copy of the point */
+              __CPROVER_assert(FE_EQ(g_ecmult_a0.x, nx) && FE_EQ(g_ecmult_a0.y, ny) && !g_ecmult_a0.infinity && fval(&g_ecmult_a0.z) == 1, "C15 ec_commit: the point tweaked is the input point"); }
             __CPROVER_assert(ret == !g_ecmult_r0.infinity, "C15 ec_commit: fails iff the tweaked point is infinity");
             if (ret == 1) __CPROVER_assert(g_sg_n == 1 && FE_EQ(g_sg_a0.x, g_ecmult_r0.x) && FE_EQ(g_sg_a0.y, g_ecmult_r0.y) && FE_EQ(g_sg_a0.z, g_ecmult_r0.z) && GE_EQ(g_sg_r0, &C), "C15 ec_commit: commitment is the affine form of the tweaked point");
+            if (ret == 1) __CPROVER_assert(ge_ok1(&C) && !C.infinity, "C15 ec_commit: a successful commitment is a finite point with magnitude-1 coordinates");
             if (ret == 1) REACH("ec_commit success");
             if (ret == 0) REACH("ec_commit tweaked point infinity");
         }
